@@ -166,8 +166,8 @@ type fileEdits struct {
 
 // Normalise computes one round of rewrites for pk. read returns the current
 // content of a file (overlay-aware).
-func Normalise(pk *packages.Package, base *Baseline, read func(string) ([]byte, error)) (*Result, error) {
-	n := &normaliser{pk: pk, base: base, read: read, files: map[string]*fileEdits{}, res: &Result{Overlay: map[string][]byte{}}}
+func Normalise(pk *packages.Package, base *Baseline, read func(string) ([]byte, error), round int) (*Result, error) {
+	n := &normaliser{round: round, pk: pk, base: base, read: read, files: map[string]*fileEdits{}, res: &Result{Overlay: map[string][]byte{}}}
 	n.index()
 	// renames first: one kind of rewrite per round keeps offsets simple
 	if n.renames() {
@@ -213,11 +213,13 @@ type normaliser struct {
 	files map[string]*fileEdits
 	res   *Result
 	ctr   int
+	round int // makes generated names unique across rounds
 
 	decls   map[string]*ast.FuncDecl // key -> decl (current program)
 	declOf  map[*types.Func]*ast.FuncDecl
 	fileOf  map[*ast.FuncDecl]*ast.File
 	unknown map[*types.Func]bool // unexported helpers not in the baseline
+	imports map[*ast.File]map[string]string // imports to add: file -> path -> name
 }
 
 func (n *normaliser) index() {
@@ -273,6 +275,23 @@ func (n *normaliser) text(f *ast.File, from, to token.Pos) string {
 }
 
 func (n *normaliser) finish() (*Result, error) {
+	for f, m := range n.imports {
+		fe, err := n.fe(f)
+		if err != nil || len(fe.edits) == 0 {
+			continue
+		}
+		var paths []string
+		for p := range m {
+			paths = append(paths, p)
+		}
+		sort.Strings(paths)
+		var sb bytes.Buffer
+		for _, p := range paths {
+			fmt.Fprintf(&sb, "; import %s %q", m[p], p)
+		}
+		at := n.off(f.Name.End())
+		fe.edits = append(fe.edits, edit{at, at, sb.String()})
+	}
 	for name, fe := range n.files {
 		if len(fe.edits) == 0 {
 			continue
@@ -297,5 +316,5 @@ func (n *normaliser) finish() (*Result, error) {
 
 func (n *normaliser) fresh(prefix string) string {
 	n.ctr++
-	return fmt.Sprintf("__%s%d", prefix, n.ctr)
+	return fmt.Sprintf("__%s%d_%d", prefix, n.round, n.ctr)
 }
